@@ -74,6 +74,11 @@ def gen_cases(ctx: Ctx):
         if not ctx.thorough() and (i + ctx.seed) % 3 != 0: continue
         add(interp="lsq_poly", order=3, nv=7, tgrid=(0, 100, 4), system=s, keys=None, law="power", lattice=bool(i % 2),
             sym_flags=flagsets[i % 3])
+    # 3c. requested pressures reaching into the last DELTA_P below the highest pressure available at every temperature: still
+    #     "inside the computed range", so the calculation completes (finite on the whole grid, last pressure column included)
+    for k in range(3 if ctx.thorough() else 1):
+        add(interp="lsq_poly", order=3, nv=7, tgrid=(0, 150, 4), system=None, keys=MIXED[:9], law="power", edge_of_range=True,
+            ntv=int([21, 16, 33][(k + ctx.seed) % 3]))
     # 4. random mixtures
     n_rand = 250 if ctx.thorough() else 6
     for _ in range(n_rand):
@@ -118,6 +123,17 @@ def evaluate(case, seed):
     ds = build(case, seed)
     fails = []
     interp = case["interp"]
+    if case.get("edge_of_range"):
+        n = int(case["ntv"])
+        qs = ds.settings["qha"]["settings"]
+        qs.update({"NTV": n, "P_MIN": 0.0, "DELTA_P": 0.01, "DELTA_P_SAMPLE": 0.01})
+        st0, probe = e2e.run_calculator(ds)
+        if st0 == "error":
+            return [(f"completion:{interp}:{type(probe).__name__}", f"Calculator raised {type(probe).__name__} on the probe grid", str(probe)[:200])], None
+        with e2e.quiet():
+            p_limit = float(numpy.min(numpy.asarray(probe.qha_calculator.calculator.p_tv_gpa)[:, -1]))
+        dp = p_limit / (n - 0.5)                      # last requested pressure = p_limit (n-1)/(n-0.5): half a step below the limit
+        qs.update({"DELTA_P": dp, "DELTA_P_SAMPLE": dp})
     status, calc = e2e.run_calculator(ds)
     if status == "error":
         e = calc
